@@ -9,10 +9,10 @@ import sys
 
 HERE = os.path.dirname(os.path.dirname(os.path.abspath(__file__)))
 # which checks are expected to see a seed (default: the seed's own property)
-ONLY = {'C01': "('N', 4), ('nondet'", 'C06': "('N', 4), ('nondet', True), ('roots', 0)",
-        'C02b': "('N', 4), ('nondet', True), ('roots', 0)"}
-EXTRA = {'C01': ['C01', 'C06'], 'C06': ['C06'], 'C02': ['C02', 'C04'], 'C03b': ['C09'], 'C02b': ['C02'],
-         'C06b': ['C06', 'C07'], 'C08': ['C08']}
+ONLY = {}
+# further checks run besides the seed's own property
+EXTRA = {'C01': ['C06'], 'C02': ['C04'], 'C03b': ['C09'], 'C06b': ['C07'], 'C06c': ['C09'], 'C05c': ['C01'],
+         'C18c': ['C14'], 'C09c': ['C06']}
 
 
 def main():
@@ -23,7 +23,7 @@ def main():
         d = os.path.join(HERE, 'seeded', name)
         meta = json.load(open(os.path.join(d, 'meta.json')))
         pid = meta.get('property', name[:3])
-        checks = EXTRA.get(name, [pid])
+        checks = [pid] + [c for c in EXTRA.get(name, []) if c != pid]
         det = {}
         for c in checks:
             cmd = [os.path.join(HERE, 'tools/mutate.py'), c, 'quick', '--patch',
@@ -41,6 +41,8 @@ def main():
         rows.append((name, pid, ', '.join(f'{c}: {v["exit"]}' for c, v in det.items()),
                      (det[caught[0]]['first'] or [''])[0][:150] if caught else ''))
         print(rows[-1], flush=True)
+    if sys.argv[1:]:
+        return
     with open(os.path.join(HERE, 'seeded', 'SUMMARY.md'), 'w') as f:
         f.write('| seed | property | quick checks on the patched copy | first reproduced violation |\n|---|---|---|---|\n')
         for r in rows:
